@@ -27,3 +27,25 @@ fn to_vector_colmajor_3x2() {
     kani::assume(i < 3 && j < 2);
     assert!(v[j * 3 + i] == m[(i, j)]);
 }
+
+/// `copy_matrix_to_column` stacks an N x S matrix into one column: element (i, j) lands at row j * N + i (2 x 3: three
+/// right-hand sides, the smallest shape where a wrong block offset shows)
+#[kani::proof]
+#[kani::unwind(8)]
+fn copy_matrix_to_column_2x3() {
+    let a: [u64; 6] = kani::any();
+    let src = DMatrix::from_column_slice(2, 3, &a);
+    let mut jac: DMatrix<u64> = DMatrix::from_element(6, 2, 0u64);
+    {
+        let mut col = jac.column_mut(1);
+        copy_matrix_to_column(src.clone(), &mut col);
+    }
+    let i: usize = kani::any();
+    let j: usize = kani::any();
+    kani::assume(i < 2 && j < 3);
+    assert!(jac[(j * 2 + i, 1)] == src[(i, j)]);
+    // the other column is untouched
+    let r: usize = kani::any();
+    kani::assume(r < 6);
+    assert!(jac[(r, 0)] == 0);
+}
